@@ -646,7 +646,19 @@ class Ctx:
                     out |= loop
         return out
 
-    def per_element(self, body, callee_rx):
+    def per_element(self, body, callee_rx, helpers=0):
+        """see _per_element; with helpers=1 a call to a private helper of the crate that makes the
+        matching call itself counts as the matching call (hit['via'] names the helper)"""
+        hits = self._per_element(body, callee_rx)
+        if helpers:
+            for h in self.local_callees(body, depth=1):
+                if str(h.raw.get("vis", "")).startswith("Restricted") and self.find_calls_deep(h, callee_rx, helpers=helpers - 1):
+                    for x in self._per_element(body, "^" + re.escape(h.key) + "$"):
+                        x["via"] = h
+                        hits.append(x)
+        return hits
+
+    def _per_element(self, body, callee_rx):
         """Calls matching `callee_rx` that run once per element of an iteration of `body`, whichever
         way the iteration is written: inside a closure handed to an iterator adapter, or inside a
         `for`/`while let` loop.  Each hit: dict(owner=body containing the call, t=terminator,
